@@ -90,7 +90,9 @@ Inductive gev :=
 | GTurn (h : handler) | GCb (h : handler) (w : watch) (ev : event)
 | GTaskDone
 | GAdded (h : handler) (w : watch)       (* registry mutation: (h,w) registered *)
-| GRemovedAll.                           (* placeholder for silent mutations that need no detail *)
+| GRemoved (h : handler) (w : watch)     (* registry mutation: (h,w) removed *)
+| GRemovedW (w : watch)                  (* ... every handler of w removed *)
+| GRemovedAll.                           (* ... every handler removed *)
 
 Inductive epc := ENew | ECheckPc | EPutPc | EExiting | EExited.
 
@@ -253,14 +255,14 @@ Definition exec (s : state) (t : tid) (i : instr) (k : list instr) (inp : input)
       go k (say (GAdded h w) (set_handlers (aset N.eqb w (addN h (hset w hs)) hs) s))
   | IRemH h w =>
       let hs := hauto w (handlers s) in
-      if memN h (hset w hs) then go k (set_handlers (aset N.eqb w (remN h (hset w hs)) hs) s)
+      if memN h (hset w hs) then go k (say (GRemoved h w) (set_handlers (aset N.eqb w (remN h (hset w hs)) hs) s))
       else raise (set_handlers hs s)
   | IUnsched w =>
       match alookup N.eqb w (efw s) with
       | None => raise s
       | Some e =>
           if amem N.eqb w (handlers s) then
-            let s1 := set_efw (aremove N.eqb w (efw s)) (set_handlers (aremove N.eqb w (handlers s)) s) in
+            let s1 := say (GRemovedW w) (set_efw (aremove N.eqb w (efw s)) (set_handlers (aremove N.eqb w (handlers s)) s)) in
             if memE e (emitters s) then
               go (IEmStop e :: IEmJoin e :: IDelWatch w :: k) (set_emitters (remE e (emitters s)) s1)
             else raise s1
@@ -286,7 +288,7 @@ Definition exec (s : state) (t : tid) (i : instr) (k : list instr) (inp : input)
             let n := length (emitters s) in
             go (flat_map (fun e => [IIterChk n; IEmStop e]) order ++ [IIterChk n]
                 ++ flat_map (fun e => [IIterChk n; IEmJoin e]) order ++ [IIterChk n; IClearEm] ++ k)
-               (say (GOrd t order) (set_handlers [] s))
+               (say (GOrd t order) (say GRemovedAll (set_handlers [] s)))
           else None
       | _ => None
       end
@@ -317,7 +319,7 @@ Definition exec (s : state) (t : tid) (i : instr) (k : list instr) (inp : input)
       end
   | IFailStart e =>
       match get_em s e with
-      | Some m => raise (set_watches (remN (ew m) (watches s)) (set_handlers (aremove N.eqb (ew m) (handlers s)) s))
+      | Some m => raise (say (GRemovedW (ew m)) (set_watches (remN (ew m) (watches s)) (set_handlers (aremove N.eqb (ew m) (handlers s)) s)))
       | None => None
       end
   | IStartDisp =>
@@ -512,6 +514,25 @@ Definition delivered (h : handler) (w : watch) (s : state) : list event :=
   flat_map (fun g => match g with GCb h' w' e => if N.eqb h h' && N.eqb w w' then [e] else [] | _ => [] end) (rev (glog s)).
 Definition queue_of (w : watch) (q : list qitem) : list event :=
   flat_map (fun x => match x with QEv e w' => if N.eqb w w' then [e] else [] | QStop => [] end) q.
+
+(* is (h,w) registered according to the ghost log (newest first)? *)
+Fixpoint reg (g : list gev) (h : handler) (w : watch) : bool :=
+  match g with
+  | [] => false
+  | GAdded h' w' :: l => (N.eqb h h' && N.eqb w w') || reg l h w
+  | GRemoved h' w' :: l => if N.eqb h h' && N.eqb w w' then false else reg l h w
+  | GRemovedW w' :: l => if N.eqb w w' then false else reg l h w
+  | GRemovedAll :: l => false
+  | _ :: l => reg l h w
+  end.
+
+(* every callback in the log went to a handler registered at that moment *)
+Fixpoint cb_ok (g : list gev) : bool :=
+  match g with
+  | [] => true
+  | GCb h w e :: l => reg l h w && cb_ok l
+  | _ :: l => cb_ok l
+  end.
 
 (* library threads' remaining own steps once the stop flags are set (C06 (ii)) *)
 Definition em_bound (m : em) : nat :=
